@@ -151,6 +151,18 @@ def enc_stable(enc: Enc, gp: GP, x, pre, heads=None):
         nl = {n: enc.ivar(f"{pre}n{n}", 0, len(nodes)) for n in nodes}
         for u, v, cond in gp.edges:
             enc.add(IMP(AND(lit(x, l) for l in cond), f"(< {nl[u]} {nl[v]})"))
+    if heads is None and not gp.head_cycle_free():
+        # non head-cycle-free disjunction: shifting is not complete, so the foundedness half of stability is stated
+        # directly: no non-empty unfounded set (one universally quantified block of Booleans)
+        headed = sorted(a for a in gp.atoms if x[a] != "false" and a in gp.by_head)
+        for a in sorted(gp.atoms):
+            if a not in gp.by_head and x[a] not in ("false", "true"):
+                enc.add(NOT(x[a]))
+        u = {a: f"{pre}U{a}" for a in headed}
+        if u:
+            bound = " ".join(f"({n} Bool)" for n in u.values())
+            enc.add(f"(forall ({bound}) {NOT(AND(_unfounded_parts(gp, x, u)))})")
+        return
     atoms = gp.atoms if heads is None else heads
     for a in sorted(atoms):
         sup = []
@@ -178,17 +190,10 @@ def f_stable(gp: GP, x, lvnames, heads=None):
     return AND(e.asserts), ints
 
 
-def f_notstable(enc: Enc, gp: GP, x, pre):
-    """formula: x is not a stable model of gp (declares the unfounded-set certificate in enc)"""
-    viol = []
-    for c, h, b in gp.rules:
-        if c:
-            continue
-        viol.append(AND([body_f(x, b)] + [NOT(x[a]) for a in h]))
-    headed = sorted(a for a in gp.atoms if x[a] != "false")
-    u = {a: enc.bvar(f"{pre}u{a}") for a in headed}
+def _unfounded_parts(gp: GP, x, u):
+    """conjuncts stating that the set u (atom -> Boolean term) is a non-empty unfounded set of gp w.r.t. x"""
     parts = [OR(u.values())]
-    for a in headed:
+    for a in u:
         parts.append(IMP(u[a], x[a]))
 
     def notu(l):
@@ -203,6 +208,19 @@ def f_notstable(enc: Enc, gp: GP, x, pre):
                 continue
             others = [OR([NOT(x[o]), u[o] if o in u else "false"]) for o in h if o != a]
             parts.append(IMP(u[a], NOT(AND([es] + others))))
+    return parts
+
+
+def f_notstable(enc: Enc, gp: GP, x, pre):
+    """formula: x is not a stable model of gp (declares the unfounded-set certificate in enc)"""
+    viol = []
+    for c, h, b in gp.rules:
+        if c:
+            continue
+        viol.append(AND([body_f(x, b)] + [NOT(x[a]) for a in h]))
+    headed = sorted(a for a in gp.atoms if x[a] != "false")
+    u = {a: enc.bvar(f"{pre}u{a}") for a in headed}
+    parts = _unfounded_parts(gp, x, u)
     unf = enc.bvar(f"{pre}unf")
     enc.add(IMP(unf, AND(parts)))
     cyc = []
@@ -324,8 +342,6 @@ def q_nocounterpart(X: GP, Y: GP, costs=True, blocked=(), path="auto", nonempty=
                 enc.add(f)
         else:
             return None, xa, "slow", "known-finding exclusion cannot be expressed on the slow path"
-    if not Y.head_cycle_free():
-        return None, xa, "slow", "non-HCF disjunction on the IsStable side"
     inner = Enc()
     for a in sorted(Y.hidden):
         xb[a] = inner.bvar(f"b{a}")
